@@ -8,6 +8,8 @@ from .. import paths, waiters
 from ..core import FUNC, call_attr, calls_in, const, dotted, kwarg, is_const, norm, text, walk_local
 
 EXPLANATION = [
+    'C09.disconnect-check-act: ClassicChannel / LeCreditBasedChannel.disconnect have no await between the state test and the statement that changes the state (test and start of the procedure are one event-loop step).',
+    'C09.disconnect-request-answered: ClassicChannel / LeCreditBasedChannel.on_disconnection_request send exactly one Disconnection Response and release the channel on every path (no silent discard of a request the manager routed to the channel).',
     'C09.reject-ends-open: ChannelManager.on_l2cap_command_reject removes the rejected request from le_coc_requests (keyed by connection and identifier) and tells the channel, whose handler fails the pending connection_result: a rejected open ends.',
     'C09.mismatch-closes-both: the mode-mismatch branch of ClassicChannel.on_configure_request both fails a pending connect() and sends the Disconnection Request on every path.',
     "C09.response-closes: in both channel classes on_disconnection_response returns early only on the state test and the CID tests: no other condition (such as the manager's link-wide identifier counter) can make a matching response leave the channel DISCONNECTING.",
@@ -882,10 +884,9 @@ def state_table(ctx):
 
 
 
-def allocator_scan(ctx):
+def allocator_scan(ctx, rule='C09.allocator-scan'):
     """A CID allocator hands out only identifiers it has individually found free in the table it was given."""
     R, p = ctx.r, ctx.p
-    rule = 'C09.allocator-scan'
     cm = p.cls(CM)
     if cm is None:
         R.bad(rule, CM, f'anchor missing: {CM}')
@@ -900,7 +901,9 @@ def allocator_scan(ctx):
         delegates = [c for c in calls_in(m) if (call_attr(c) or '').startswith('find_free_') and c.args and dotted(c.args[0]) == table]
         if delegates:
             n += 1
-            R.ok(rule, f'{CM}.{name}', f'delegates to {call_attr(delegates[0])} on the same table', p.loc(m))
+            from_delegate = {t.id for st in walk_local(m) if isinstance(st, ast.Assign) and any(st.value is d or any(x is d for x in ast.walk(st.value)) for d in delegates) for t in st.targets if isinstance(t, ast.Name)}
+            own = [r for r in rets if not any(any(x is d for x in ast.walk(r.value)) for d in delegates) and not ({x.id for x in ast.walk(r.value) if isinstance(x, ast.Name)} and {x.id for x in ast.walk(r.value) if isinstance(x, ast.Name)} <= from_delegate)]
+            R.check(not own, rule, f'{CM}.{name}', f'delegates to {call_attr(delegates[0])} on the same table and returns only what it found', f'{name} also returns `{norm(own[0].value) if own else ""}`, which does not come from the scanning allocator: an identifier that was never tested against the table (in use by an open channel, or handed out while a lower one is free for ever) is allocated', p.loc(own[0]) if own else p.loc(m))
             continue
         loops = [f for f in walk_local(m) if isinstance(f, ast.For) and isinstance(f.iter, ast.Call) and dotted(f.iter.func) == 'range']
         ok = bool(loops) and bool(rets)
@@ -1126,7 +1129,54 @@ def reject_ends_open(ctx):
         R.check(bool(settles), rule, f'{LE}.{c.func.attr} | fails the pending connect', 'connection_result is failed', f'{c.func.attr} does not fail the pending connection_result', p.loc(m))
 
 
+def disconnect_request_answered(ctx):
+    """A Disconnection Request routed to a channel is answered: exactly one Disconnection Response on every path of the
+    channel's handler, and the channel leaves the manager's table."""
+    R, p = ctx.r, ctx.p
+    rule = 'C09.disconnect-request-answered'
+    for cn in (CC, LE):
+        fn = p.find(f'{cn}.on_disconnection_request')
+        if fn is None:
+            R.bad(rule, f'{cn}.on_disconnection_request', 'anchor missing')
+            continue
+
+        class D(paths.Domain):
+            def event(self, node, v):
+                if isinstance(node, ast.Call) and dotted(node.func) == 'self.send_control_frame' and node.args and isinstance(node.args[0], ast.Call) and call_attr(node.args[0]) == 'L2CAP_Disconnection_Response':
+                    return ((min(2, v[0] + 1), v[1]),)
+                if isinstance(node, ast.Call) and dotted(node.func) == 'self.manager.on_channel_closed':
+                    return ((v[0], True),)
+                return (v,)
+        res = paths.run(fn, D(), (0, False))
+        bad = [f'{v[0]} response(s), {"released" if v[1] else "still registered"} ({k} via {" ".join(w)})' for k, st in res.items() if not k.startswith('raise') for v, w in st.items() if v != (1, True)]
+        R.check(not bad, rule, f'{cn}.on_disconnection_request', 'one Disconnection Response and the channel released on every path', f'a path of on_disconnection_request ends with {bad[:1]}: the peer that asked for the disconnection waits for ever (its channel stays in WAIT_DISCONNECT / DISCONNECTING), and this side keeps the channel open', p.loc(fn))
+
+
+def disconnect_check_act(ctx):
+    """disconnect() tests the state and starts the procedure (waiter stored, state changed, request sent) in one step of the
+    event loop: with an await in between the peer's own Disconnection Request can be handled first, and the procedure is
+    then started on a channel that is already closed - its waiter is never released."""
+    R, p = ctx.r, ctx.p
+    rule = 'C09.disconnect-check-act'
+    for cn in (CC, LE):
+        fn = p.find(f'{cn}.disconnect')
+        if fn is None:
+            R.bad(rule, f'{cn}.disconnect', 'anchor missing')
+            continue
+        body = fn.body
+        gi = next((i for i, s_ in enumerate(body) if isinstance(s_, ast.If) and 'self.state' in norm(s_.test) and any(isinstance(x, ast.Raise) for x in ast.walk(s_))), None)
+        ai = next((i for i, s_ in enumerate(body) if any(call_attr(c) in ('_change_state', '_disconnect_sync') for c in calls_in(s_))), None)
+        if gi is None or ai is None or ai < gi:
+            R.bad(rule, f'{cn}.disconnect', 'disconnect() no longer has the shape state-test ... state-change (anchor)', p.loc(fn))
+            continue
+        aw = [x for s_ in body[gi + 1:ai + 1] for x in ast.walk(s_) if isinstance(x, ast.Await)]
+        first = [x for s_ in body[:gi] for x in ast.walk(s_) if isinstance(x, ast.Await)]
+        R.check(not aw, rule, f'{cn}.disconnect', 'no suspension between the state test and the state change', f'disconnect() awaits (`{norm(aw[0])[:50] if aw else ""}`) after it has tested the state and before it changes it: a Disconnection Request from the peer handled during that suspension closes the channel, then the procedure starts anyway and its waiter is never released (the caller hangs)', p.loc(aw[0]) if aw else p.loc(fn))
+
+
 RULES = [
+    ('C09.disconnect-check-act', disconnect_check_act),
+    ('C09.disconnect-request-answered', disconnect_request_answered),
     ('C09.reject-ends-open', reject_ends_open),
     ('C09.mismatch-closes-both', mismatch_closes_both),
     ('C09.response-closes', response_closes),
